@@ -1,6 +1,7 @@
 // C02 harness: runs libphysica::Find_Root on the case file; see checks/C02.py for the grammar.
 // Output: result, warning flag (the "Iterations exceed the maximum" message on stdout), number of evaluations of
-// the objective function and their abscissae in call order.  std::exit inside the library is reported by the runner.
+// the objective function and their abscissae in call order (op both: for both orders of the ends; op seq: for each of
+// the k requests of a history served by one process).  std::exit inside the library is reported by the runner.
 #include "common.hpp"
 #include "libphysica/Numerics.hpp"
 using namespace libphysica;
@@ -57,6 +58,44 @@ static void handler(vh::Reader& r, vh::Out& o)
 			bool warn2 = diag_has("Iterations exceed the maximum");
 			o.f(y);
 			o.i(warn2 ? 1 : 0);
+			o.fl(trace);
+		}
+	}
+	else if(op == "seq")
+	{
+		// k requests served one after the other by this process (all parsed first, then run in order)
+		long k = r.integer();
+		struct Req
+		{
+			double a, b, acc;
+			std::function<double(double)> f;
+		};
+		std::vector<Req> reqs;
+		for(long i = 0; i < k; i++)
+		{
+			Req q;
+			q.a	  = r.num();
+			q.b	  = r.num();
+			q.acc = r.num();
+			r.word();
+			long np = r.integer();
+			for(long j = 0; j < np; j++)
+				r.num();
+			q.f = vh::fun1(vh::parse_fexpr(r));
+			reqs.push_back(q);
+		}
+		for(auto& q : reqs)
+		{
+			std::vector<double> trace;
+			auto g = [&](double x) {
+				trace.push_back(x);
+				return q.f(x);
+			};
+			diag_reset();
+			double x  = Find_Root(g, q.a, q.b, q.acc);
+			bool warn = diag_has("Iterations exceed the maximum");
+			o.f(x);
+			o.i(warn ? 1 : 0);
 			o.fl(trace);
 		}
 	}
